@@ -1,7 +1,10 @@
 package rules
 
 import (
+	"fmt"
 	"go/token"
+	"go/types"
+	"sort"
 	"strings"
 
 	"verifchk/internal/an"
@@ -21,6 +24,7 @@ func runC07(c *an.Ctx) {
 	r07a(c)
 	r07b(c)
 	r07c(c)
+	r07d(c)
 }
 
 func r07a(c *an.Ctx) {
@@ -446,6 +450,35 @@ func r07b(c *an.Ctx) {
 			c.Ob(c.RelName(f)+"|stored-counter-taken-as-is", call.Pos(), okSrc && fromRead && errOK,
 				"the number parsed must be exactly what was read from the counter (from-read=%v, no constant default=%v) and a parse failure must be returned without rewriting the counter (%v): treating an empty or damaged counter file as 0 makes a restarted core hand out run numbers again", fromRead, okSrc, errOK)
 		}
+		// the counter is (re)initialised with a constant only when it does not exist at all: an existing but empty or
+		// unreadable counter (an interrupted rewrite leaves one) must not be taken for a fresh installation
+		for wi, w := range writes {
+			wc := w.(*ssa.Call)
+			if len(wc.Call.Args) < 2 {
+				continue
+			}
+			fromCounter := false
+			for _, l := range an.BackSlice(wc.Call.Args[1], an.SliceOpts{LeafCall: func(n string, _ *ssa.Call) bool {
+				return n == "io/ioutil.ReadFile" || n == "os.ReadFile" || strings.HasSuffix(n, "KV).Get")
+			}}) {
+				if l.Kind == "call" {
+					fromCounter = true
+				}
+			}
+			if fromCounter {
+				continue
+			}
+			onlyAbsent := an.GuardedByAll(w.Block(), func(a an.Atom) bool {
+				call, isCall := a.X.(*ssa.Call)
+				if !isCall || a.Y != nil || !a.Val {
+					return false
+				}
+				n := an.CalleeName(&call.Call)
+				return n == "os.IsNotExist" || n == "errors.Is"
+			})
+			c.Ob(fmt.Sprintf("%s|init-write#%d|only-when-absent", c.RelName(f), wi), w.Pos(), onlyAbsent,
+				"the counter is written with a value that does not come from the stored counter, and not only when the counter does not exist (os.IsNotExist): an existing counter that is empty or damaged is reset and run numbers are handed out again")
+		}
 		c.Ob(c.RelName(f)+"|read-modify-write-atomic", f.Pos(), ok,
 			"this backend reads the run counter, increments it and writes it back with no lock and no compare-and-set: two environments starting at the same time read the same value and get the same run number")
 	}
@@ -480,6 +513,36 @@ func r07c(c *an.Ctx) {
 			}
 		}
 		c.Ob("core/environment.newEnvironment[before_event]|run-number-only-on-START", call.Pos(), start, "NewRunNumber must be requested only when the event is START_ACTIVITY")
+		// ... and on every START_ACTIVITY: beyond the event selection nothing conditions the request (a start that
+		// re-uses the number still stored from a run that ended abnormally gives two runs one number)
+		var extra []string
+		for _, g := range an.ControlConds(call.Block()) {
+			if g.LoopHeader || g.LoopExit {
+				continue
+			}
+			for _, a := range an.CondAtoms(g.V, g.Val) {
+				okAtom := false
+				if a.Y != nil {
+					if _, isS := an.ConstString(a.Y); isS && isFieldNamed(a.X, "Event") {
+						okAtom = true
+					}
+					if an.IsNilConst(a.Y) || an.IsNilConst(a.X) {
+						okAtom = true
+					}
+				}
+				if !okAtom {
+					p := c.PosStr(atomPos(a))
+					dup := false
+					for _, e := range extra {
+						dup = dup || e == p
+					}
+					if !dup {
+						extra = append(extra, p)
+					}
+				}
+			}
+		}
+		c.Ob("core/environment.newEnvironment[before_event]|every-start-draws-a-number", call.Pos(), len(extra) == 0, "whether START_ACTIVITY requests a new run number depends on further conditions (at %v): a start for which they do not hold runs under a number that was given out before", extra)
 		// error edge: Cancel + return before the number is stored
 		var errV ssa.Value
 		for _, r := range *call.Referrers() {
@@ -544,5 +607,57 @@ func r07c(c *an.Ctx) {
 			}
 			c.Ob("store-currentRunNumber|"+c.RelName(an.OutermostParent(f)), st.Pos(), okV, "the environment's current run number may only be set to the number just obtained from a successful NewRunNumber, or reset to 0")
 		})
+	}
+}
+
+// R07d: every layer between the counter and the environment hands the counter's refusal on. A NewRunNumber that calls
+// another NewRunNumber (or the Consul counter) and can answer with a nil error although that call failed gives the
+// caller a number that was not reserved - the start then runs under a number somebody else holds or will be given.
+func r07d(c *an.Ctx) {
+	c.Rule("R07d", "every NewRunNumber that delegates returns the delegate's error", 3)
+	for _, f := range c.ModuleFuncs() {
+		if f.Name() != "NewRunNumber" || f.Signature.Recv() == nil || c.Generated(f) {
+			continue
+		}
+		for _, ci := range an.Calls(f, func(n string, ci ssa.CallInstruction) bool {
+			m := an.MethodName(ci.Common())
+			return m == "NewRunNumber" || m == "GetNextUInt32"
+		}) {
+			call, ok := ci.(*ssa.Call)
+			if !ok {
+				continue
+			}
+			tup, isTup := call.Type().(*types.Tuple)
+			if !isTup {
+				continue
+			}
+			var errv ssa.Value
+			for _, r := range *call.Referrers() {
+				if ex, isEx := r.(*ssa.Extract); isEx && ex.Index == tup.Len()-1 {
+					errv = ex
+				}
+			}
+			c.Subject()
+			c.Mark(f)
+			key := c.RelName(f) + "|delegate-error-returned"
+			if errv == nil {
+				c.Ob(key, call.Pos(), false, "the error of the delegate is not even read")
+				continue
+			}
+			fl := an.FlowFromFacts(call.Block(), nil, errv)
+			var bad []string
+			for _, r := range fl.ReachedReturns() {
+				if len(r.Results) == 0 {
+					continue
+				}
+				rv := an.RetVal(r, len(r.Results)-1)
+				if fl.Nilness(rv) == 1 || an.DerivesFrom(rv, errv) {
+					continue
+				}
+				bad = append(bad, c.PosStr(lastPos(r.Block())))
+			}
+			sort.Strings(bad)
+			c.Ob(key, call.Pos(), len(bad) == 0, "with the delegate's error set, the function can return an error that is neither it nor known non-nil (at %v): the caller takes the accompanying number for reserved", bad)
+		}
 	}
 }
